@@ -9,6 +9,10 @@ schemas of the fragment (any depth, any labels, any number of conjuncts, any pat
 the pattern language) and all data.
 -/
 import CueVerif.Proofs.Closed
+import CueVerif.Proofs.Typo
+import CueVerif.Proofs.ArcType
+import CueVerif.Proofs.PatMatch
+import CueVerif.Spec.ClosedDenied
 namespace CueVerif.C05
 open CueVerif CueVerif.Closed
 
@@ -118,5 +122,210 @@ example : closed (.field la .required (.sc .int) (.pat .any (.sc .str) .nil)) = 
 example : (allowedBy (.emb exS (.field lc .optional (.sc .int) .nil)) lc,
            allowedBy (.emb exS (.field lc .optional (.sc .int) .nil)) la,
            allowedBy (.emb exS (.field lc .optional (.sc .int) .nil)) lb) = (true, true, false) := by decide
+
+/-! ## Session 3 — the evidence algorithm of typocheck.go (Model/Typo.lean)
+
+`Typo.*` transcribes addResolver / newReq / injectEmbedNode / splitStruct / getReqSets /
+filterTop / hasEvidenceForAll / hasEvidenceForOne / containsDefIDRec / checkTypos.  The
+theorems below are about these functions for ALL requirement sets, conjunct infos and
+containment relations (Layer A); how the scheduler (Layer B) produces them for a schema is
+compared with the real evaluator on generated schemas (harness ops `tyev`, class I, and
+`den`, class O against `Closed.denied`). -/
+
+/-- "A field is admitted iff every closing conjunct group that reaches the node admits it":
+when every requirement set is active and outside any embedding scope, the evidence check
+succeeds exactly when EVERY set has direct evidence (a conjunct of the field whose defID lies
+inside the set). -/
+theorem C05_typo_all_groups (contains : Nat → Nat → Bool) (a : List Typo.ReqSet) (conj : List Typo.ConjInfo)
+    (h : ∀ rs ∈ a, rs.ignored = false ∧ rs.removed = false ∧ rs.embed = 0) :
+    Typo.hasEvidenceForAll contains a conj =
+      a.all (fun rs => conj.any (fun x => contains rs.id x.id)) :=
+  Typo.hasEvidenceForAll_flat a conj h
+
+/-- A closed struct never gains a field (evidence level): one active set outside any embedding
+scope without direct evidence denies the field, whatever the other sets say. -/
+theorem C05_typo_closed_never_gains (contains : Nat → Nat → Bool) (a : List Typo.ReqSet)
+    (conj : List Typo.ConjInfo) (rs : Typo.ReqSet)
+    (hm : rs ∈ a) (hi : rs.ignored = false) (hr : rs.removed = false) (he : rs.embed = 0)
+    (hn : conj.any (fun x => contains rs.id x.id) = false) :
+    Typo.hasEvidenceForAll contains a conj = false :=
+  Typo.hasEvidenceForAll_denied a conj rs hm hi hr he hn
+
+/-- An open struct never rejects (evidence level): without an active requirement set no arc is
+denied. -/
+theorem C05_typo_open_never_rejects (cN cA : Nat → Nat → Bool) (base : List Typo.ReqSet)
+    (nodeConj arcConj : List Typo.ConjInfo) (l : Label) (b : Bool)
+    (h : ∀ rs ∈ base, rs.ignored = true ∨ rs.removed = true) :
+    Typo.arcDenied cN cA base nodeConj l b arcConj = false :=
+  Typo.arcDenied_inactive cN cA base nodeConj arcConj l b h
+
+/-- Hidden and definition fields are never restricted (`allowedInClosed`). -/
+theorem C05_typo_hidden_never_denied (cN cA : Nat → Nat → Bool) (base : List Typo.ReqSet)
+    (nodeConj arcConj : List Typo.ConjInfo) (l : Label) (b : Bool) (h : l.isReg = false) :
+    Typo.arcDenied cN cA base nodeConj l b arcConj = false :=
+  Typo.arcDenied_nonreg cN cA base nodeConj arcConj l b h
+
+/-- `...`: an ellipsis conjunct of the node inside every requirement set opens the node. -/
+theorem C05_typo_ellipsis_opens (cN cA : Nat → Nat → Bool) (base : List Typo.ReqSet)
+    (nodeConj arcConj : List Typo.ConjInfo) (l : Label) (b : Bool)
+    (h : ∀ rs ∈ base, Typo.hasParentEllipsis cN rs nodeConj ≠ 0) :
+    Typo.arcDenied cN cA base nodeConj l b arcConj = false :=
+  Typo.arcDenied_ellipsis cN cA base nodeConj arcConj l b h
+
+/-- The complete per-arc decision of `checkTypos` for requirement sets outside embedding
+scopes: a regular, non-erroneous arc is denied iff some set has neither an ellipsis nor direct
+evidence. -/
+theorem C05_typo_arc_decision (cN cA : Nat → Nat → Bool) (base : List Typo.ReqSet)
+    (nodeConj arcConj : List Typo.ConjInfo) (l : Label) (hl : l.isReg = true)
+    (h : ∀ rs ∈ base, rs.ignored = false ∧ rs.removed = false ∧ rs.embed = 0) :
+    Typo.arcDenied cN cA base nodeConj l false arcConj =
+      !(base.all fun rs => Typo.hasParentEllipsis cN rs nodeConj != 0 ||
+          arcConj.any (fun x => cA rs.id x.id)) :=
+  Typo.arcDenied_flat cN cA base nodeConj arcConj l hl h
+
+/-- "Embeddings open their embedder": a requirement that lives in the embedding scope `es`
+of an enclosing struct `o` is satisfied by direct evidence OR by any conjunct of the field that
+comes from the enclosing struct but from outside that embedding. -/
+theorem C05_typo_embedding_widens (contains : Nat → Nat → Bool) (all : List Typo.ReqSet)
+    (a es o : Typo.ReqSet) (conj : List Typo.ConjInfo)
+    (hs : Typo.lookupSet all a.embed = some es) (hp : a.parent ≠ 0)
+    (ho : Typo.lookupSet all a.parent = some o) (hr : o.removed = false) :
+    Typo.hasEvidenceForOne contains all a conj =
+      (conj.any (fun x => contains a.id x.id) ||
+       conj.any (fun c => !(contains es.id c.embed) && contains o.id c.id)) :=
+  Typo.hasEvidenceForOne_embedded all a es o conj hs hp ho hr
+
+/-- "close() closes one level": below requirement sets that are all `once` (they come from
+`close()`), a node without closing references of its own admits every field. -/
+theorem C05_typo_close_one_level (contains : Nat → Nat → Bool) (n : Typo.NodeSt)
+    (parentReqs : List Typo.ReqSet) (parentConj conj : List Typo.ConjInfo) (hidden : Bool)
+    (hn : n.reqDefIDs = []) (h : ∀ e ∈ parentReqs, e.once = true) :
+    Typo.hasEvidenceForAll contains (Typo.getReqSets contains n parentReqs parentConj hidden) conj = true :=
+  Typo.getReqSets_all_once n parentReqs parentConj conj hidden hn h
+
+/-- "definitions close recursively": `markIgnored` (the inheritance step of `getReqSets`) keeps
+every set that is not `once` exactly as it is. -/
+theorem C05_typo_definition_inherited (a : List Typo.ReqSet) (e : Typo.ReqSet) (he : e ∈ a)
+    (h : e.once = false) : e ∈ Typo.markIgnored a :=
+  Typo.markIgnored_keep a e he h
+
+/-- containment is reflexive and follows a containment edge (`containsDefIDRec`) -/
+theorem C05_typo_contains_refl (cont flat : List (Nat × Nat)) (n : Nat) (h : n ≠ 0) :
+    Typo.containsDefID cont flat n n = true :=
+  Typo.containsDefID_refl cont flat n h
+
+theorem C05_typo_contains_parent (cont : List (Nat × Nat)) (p c : Nat) (hc : c ≠ 0) (hp : p ≠ 0)
+    (hne : p ≠ c) (h : Typo.contOf cont c = p) : Typo.containsDefID cont [] p c = true :=
+  Typo.containsDefID_parent cont p c hc hp hne h
+
+/-- The full soundness/completeness statement of the evidence algorithm w.r.t. the spec-level
+`allowedBy`/`sub` walk (`Closed.denied`), for every schema of the fragment at every depth.
+-- OPEN (not proved; FALSE as stated without excluding the known-finding shapes: the evidence
+model reproduces close-of-definition-reference, definition-body-is-close-call,
+ellipsis-inside-embedding and nested-embedding, see the witnesses below).  It is TESTED on
+every generated case by the harness (ops `tyev` and `den` must both equal the evaluator's set
+of "field not allowed" paths). -/
+def C05_typo_exact_stmt : Prop :=
+  ∀ (s : Expr) (d : Data), d.WF = true →
+    ∀ p, p ∈ Typo.typoDenied s d.toExpr ↔ p ∈ denied s d
+
+private def lx : Label := ⟨.reg, [120]⟩
+private def ly : Label := ⟨.reg, [121]⟩
+/-- `#D: close({a?: {x?: int}}); #D & {a: {y: 1}}`: the spec denies `a.y`, the evidence
+algorithm (like the real evaluator, finding `definition-body-is-close-call`) does not -/
+theorem C05_typo_exact_false : ¬ C05_typo_exact_stmt := by
+  intro h
+  have := (h (.defn (.close (.field ⟨.reg, [97]⟩ .optional (.field lx .optional (.sc .int) .nil) .nil)))
+    (.cons ⟨.reg, [97]⟩ (.cons ly (.atom (.i 1)) .nil) .nil) (by decide) [⟨.reg, [97]⟩, ly]).mpr (by decide)
+  revert this
+  decide
+
+/-! ## Session 3 — arc types (member / required / optional) -/
+
+theorem C05_arc_merge_comm (a b : Kind) : a.merge b = b.merge a := Kind.merge_comm a b
+theorem C05_arc_merge_assoc (a b c : Kind) : (a.merge b).merge c = a.merge (b.merge c) :=
+  Kind.merge_assoc a b c
+theorem C05_arc_merge_idem (a : Kind) : a.merge a = a := Kind.merge_idem a
+/-- a regular field wins over any constraint marker; `?` is the unit; `!` + `?` = `!` -/
+theorem C05_arc_merge_member (a : Kind) : a.merge .member = .member := Kind.merge_member a
+theorem C05_arc_merge_optional (a : Kind) : a.merge .optional = a := Kind.merge_optional a
+theorem C05_arc_required_plus_member : Kind.required.merge .member = .member := rfl
+theorem C05_arc_required_plus_optional : Kind.required.merge .optional = .required := rfl
+/-- the merge is the meet of member < required < optional, also on possibly absent arcs -/
+theorem C05_arc_merge_is_min (a b : Kind) : (a.merge b).rank = min a.rank b.rank := Kind.merge_rank a b
+theorem C05_arc_mergeK_comm (a b : Option Kind) : mergeK a b = mergeK b a := mergeK_comm a b
+theorem C05_arc_mergeK_assoc (a b c : Option Kind) : mergeK (mergeK a b) c = mergeK a (mergeK b c) :=
+  mergeK_assoc a b c
+theorem C05_arc_mergeK_idem (a : Option Kind) : mergeK a a = a := mergeK_idem a
+theorem C05_arc_mergeK_unit (a : Option Kind) : mergeK none a = a ∧ mergeK a none = a :=
+  ⟨mergeK_none_left a, mergeK_none_right a⟩
+
+/-- required-field rule, model: a struct with an arc that is still `!` fails
+`Validate(Concrete(true))` in a regular context … -/
+theorem C05_required_field_fails (labels : List Label) (kind : Label → Option Kind) (val : Label → Val)
+    (hard soft : List Pred) (names wide : Pred) (r e : Bool) (l : Label)
+    (hl : l ∈ labels) (hk : kind l = some .required) :
+    validate true (.st labels kind val hard soft names wide r e) = false :=
+  validate_required_fails labels kind val hard soft names wide r e l hl hk
+/-- … but not below a hidden/definition field … -/
+theorem C05_required_field_hidden_ok (l : Label) (v : Val) :
+    validate false (single l .required v) = true := validate_required_hidden_ok l v
+/-- … and spec: whatever `admitsN` accepts has every `l!:` of the schema present (from the
+data or as a regular field of another conjunct). -/
+theorem C05_required_field_present (n : Nat) (e : Expr) (od : Option Data) (l : Label)
+    (hs : (shape e).meet (optShape od) = .st) (h : admitsN (n + 1) true e od = true)
+    (hl : l ∈ fieldLabels e) (hr : hasDecl .required e l = true) :
+    ((match od with | some d => d.labels | none => []).contains l || hasDecl .member e l) = true :=
+  admitsN_required_present n e od l hs h hl hr
+
+/-! ## Session 3 — pattern constraints: matchPattern decides C03's satisfaction relation -/
+
+/-- `matchPatternValue` on a string label = "the label satisfies the constraint the pattern
+denotes" in the scalar specification of C03, for every pattern value built from `_`, basic
+types, bounds (`<`,`<=`,`>`,`>=`,`!=`,`=~`,`!~` with any operand), string/number literals,
+conjunctions and disjunctions, and every regular-expression matcher. -/
+theorem C05_pattern_match_exact (re : Scalar.Bytes → Scalar.Bytes → Bool) (p : PatMatch.PatV)
+    (l : Scalar.Bytes) : PatMatch.matchValue re p l = p.sat re (.str l) :=
+  PatMatch.matchValue_eq_sat re p l
+
+theorem C05_pattern_admits_iff (re : Scalar.Bytes → Scalar.Bytes → Bool) (p : PatMatch.PatV)
+    (regular : Bool) (l : Scalar.Bytes) :
+    PatMatch.matchPattern re (some p) regular l = PatMatch.admitsLabel re p regular l :=
+  PatMatch.matchPattern_eq_admits re p regular l
+
+/-- the pattern language of the closedness model/spec (`Pat.matches`) is `matchPattern` on
+`string`, `=~"^q"`, `=~"q$"`, `!="q"` -/
+theorem C05_pattern_fragment (re : Scalar.Bytes → Scalar.Bytes → Bool)
+    (hpre : ∀ q s, re (94 :: q) s = q.isPrefixOf s) (hsuf : ∀ q s, re (q ++ [36]) s = q.isSuffixOf s)
+    (p : Pat) (l : Label) :
+    p.matches l = PatMatch.matchPattern re (some (PatMatch.ofPat p)) l.isReg l.name :=
+  PatMatch.matches_eq_matchPattern re hpre hsuf p l
+
+/-! ### non-vacuity for session 3 (tests on samples) -/
+
+-- an active flat requirement set with and without direct evidence
+example : Typo.hasEvidenceForAll (fun a b => a == b)
+    [{ id := 1, parent := 0, embed := 0, kind := .reference, once := false, ignored := false }]
+    [{ id := 1, embed := 0 }] = true := by decide
+example : Typo.hasEvidenceForAll (fun a b => a == b)
+    [{ id := 1, parent := 0, embed := 0, kind := .reference, once := false, ignored := false }]
+    [{ id := 0, embed := 0 }] = false := by decide
+-- the scheduler on `{#S, c?: int} & {a: 1, b: 1, c: 1}` with `#S: {a?: int}` denies exactly `b`
+example : Typo.typoDenied (.emb exS (.field lc .optional (.sc .int) .nil))
+    (.field la .member (.sc (.i 1)) (.field lb .member (.sc (.i 1)) (.field lc .member (.sc (.i 1)) .nil)))
+    = [[lb]] := by decide
+example : denied (.emb exS (.field lc .optional (.sc .int) .nil))
+    (.cons la (.atom (.i 1)) (.cons lb (.atom (.i 1)) (.cons lc (.atom (.i 1)) .nil))) = [[lb]] := by decide
+-- hypotheses of C05_typo_embedding_widens are satisfiable
+example : Typo.lookupSet [{ id := 2, parent := 1, embed := 2, kind := .embedding, once := false, ignored := true },
+    { id := 1, parent := 0, embed := 0, kind := .struct, once := false, ignored := false }] 2 ≠ none := by decide
+-- patterns: `=~"^a"` admits "ab", `<"b" & !="ab"` does not, `"a" | "b"` admits "b"
+example : PatMatch.matchValue (fun p s => (p.drop 1).isPrefixOf s) (PatMatch.ofPat (.pre [97])) [97, 98] = true := by decide
+example : PatMatch.matchValue (fun _ _ => false)
+    (.conj (.bound ⟨.lt, .str [98]⟩) (.bound ⟨.ne, .str [97, 98]⟩)) [97, 98] = false := by decide
+example : PatMatch.matchValue (fun _ _ => false) (.disj (.str [97]) (.str [98])) [98] = true := by decide
+-- arc types: `a!: int` & `a: 1` is a regular field; `a!` alone fails validation
+example : mergeK (some .required) (some .member) = some .member := by decide
+example : validate true (single la .required (.sc .int)) = false := by decide
 
 end CueVerif.C05
